@@ -9,30 +9,39 @@ package k8s
 // createMergeableIngresses) applied to what the real Configuration accepted.
 
 import (
+	"context"
+	"fmt"
 	"io"
 	"log/slog"
 
 	api_v1 "k8s.io/api/core/v1"
 	networking "k8s.io/api/networking/v1"
 	"k8s.io/apimachinery/pkg/apis/meta/v1/unstructured"
+	"k8s.io/apimachinery/pkg/runtime"
+	dynamicfake "k8s.io/client-go/dynamic/fake"
+	"k8s.io/client-go/kubernetes/fake"
 	"k8s.io/client-go/tools/cache"
+	"k8s.io/client-go/tools/record"
 
 	"github.com/nginx/kubernetes-ingress/internal/configs"
 	"github.com/nginx/kubernetes-ingress/internal/k8s/appprotect"
 	"github.com/nginx/kubernetes-ingress/internal/k8s/appprotectdos"
 	"github.com/nginx/kubernetes-ingress/internal/k8s/secrets"
+	nl "github.com/nginx/kubernetes-ingress/internal/logger"
 	"github.com/nginx/kubernetes-ingress/internal/metrics/collectors"
 	conf_v1 "github.com/nginx/kubernetes-ingress/pkg/apis/configuration/v1"
 	"github.com/nginx/kubernetes-ingress/pkg/apis/configuration/validation"
+	fake_v1 "github.com/nginx/kubernetes-ingress/pkg/client/clientset/versioned/fake"
 )
 
 // VerifC08Opts are the switches of the controller that matter for policies.
 type VerifC08Opts struct {
-	IsPlus       bool
-	EnableOIDC   bool
-	AppProtect   bool
-	IngressClass string
-	Configurator *configs.Configurator
+	IsPlus         bool
+	EnableOIDC     bool
+	AppProtect     bool
+	InternalRoutes bool
+	IngressClass   string
+	Configurator   *configs.Configurator
 }
 
 // VerifC08 wraps the controller.
@@ -67,6 +76,7 @@ func NewVerifC08(o VerifC08Opts) *VerifC08 {
 		areCustomResourcesEnabled: true,
 		enableOIDC:                o.EnableOIDC,
 		appProtectEnabled:         o.AppProtect,
+		internalRoutesEnabled:     o.InternalRoutes,
 		dosConfiguration:          appprotectdos.NewConfiguration(false),
 	}
 	lbc.appProtectConfiguration = appprotect.NewConfiguration(lbc.Logger)
@@ -75,7 +85,7 @@ func NewVerifC08(o VerifC08Opts) *VerifC08 {
 		o.IsPlus,
 		o.AppProtect,
 		false,
-		false,
+		o.InternalRoutes,
 		validation.NewVirtualServerValidator(validation.IsPlus(o.IsPlus)),
 		validation.NewGlobalConfigurationValidator(map[int]bool{80: true, 443: true}),
 		validation.NewTransportServerValidator(false, false, o.IsPlus),
@@ -172,4 +182,139 @@ func (v *VerifC08) AddVirtualServerRoute(vsr *conf_v1.VirtualServerRoute) VerifC
 func (v *VerifC08) AddIngress(ing *networking.Ingress) VerifC08Built {
 	ch, pr := v.lbc.configuration.AddOrUpdateIngress(ing)
 	return v.build(ch, len(pr))
+}
+
+// ---------------------------------------------------------------- controller level (histories)
+
+// VerifC08Ctl is the real LoadBalancerController built by the production constructor over fake
+// clientsets.  The harness plays the informers: it puts an object into (or removes it from) the
+// store of its kind, calls the REAL event handler of that kind the way the informer would (which
+// decides whether a task is queued), and then runs the REAL lbc.sync on every queued task.
+type VerifC08Ctl struct {
+	lbc *LoadBalancerController
+	nsi *namespacedInformer
+}
+
+// NewVerifC08Ctl builds the controller.
+func NewVerifC08Ctl(o VerifC08Opts, internalRoutes bool) *VerifC08Ctl {
+	logger := slog.New(slog.NewTextHandler(io.Discard, nil))
+	lbc := NewLoadBalancerController(NewLoadBalancerControllerInput{
+		KubeClient:                   fake.NewSimpleClientset(),
+		ConfClient:                   fake_v1.NewSimpleClientset(),
+		DynClient:                    dynamicfake.NewSimpleDynamicClient(runtime.NewScheme()),
+		Recorder:                     record.NewFakeRecorder(100000),
+		LoggerContext:                nl.ContextWithLogger(context.Background(), logger),
+		NginxConfigurator:            o.Configurator,
+		IngressClass:                 o.IngressClass,
+		Namespace:                    []string{""},
+		SecretNamespace:              []string{""},
+		ControllerNamespace:          "nginx-ingress",
+		AreCustomResourcesEnabled:    true,
+		IsNginxPlus:                  o.IsPlus,
+		EnableOIDC:                   o.EnableOIDC,
+		AppProtectEnabled:            o.AppProtect,
+		InternalRoutesEnabled:        internalRoutes,
+		MetricsCollector:             collectors.NewControllerFakeCollector(),
+		GlobalConfigurationValidator: validation.NewGlobalConfigurationValidator(map[int]bool{80: true, 443: true}),
+		TransportServerValidator:     validation.NewTransportServerValidator(false, false, o.IsPlus),
+		VirtualServerValidator:       validation.NewVirtualServerValidator(validation.IsPlus(o.IsPlus)),
+	})
+	lbc.isNginxReady = true
+	o.Configurator.EnableReloads()
+	return &VerifC08Ctl{lbc: lbc, nsi: lbc.namespacedInformers[""]}
+}
+
+func (v *VerifC08Ctl) storeAndHandlers(kind string) (cache.Store, cache.ResourceEventHandlerFuncs, bool) {
+	switch kind {
+	case "secret":
+		return v.nsi.secretLister, createSecretHandlers(v.lbc), true
+	case "policy":
+		return v.nsi.policyLister, createPolicyHandlers(v.lbc), true
+	case "appol":
+		return v.nsi.appProtectPolicyLister, createAppProtectPolicyHandlers(v.lbc), v.nsi.appProtectPolicyLister != nil
+	case "aplog":
+		return v.nsi.appProtectLogConfLister, createAppProtectLogConfHandlers(v.lbc), v.nsi.appProtectLogConfLister != nil
+	case "vs":
+		return v.nsi.virtualServerLister, createVirtualServerHandlers(v.lbc), true
+	case "vsr":
+		return v.nsi.virtualServerRouteLister, createVirtualServerRouteHandlers(v.lbc), true
+	case "ing":
+		return v.nsi.ingressLister.Store, createIngressHandlers(v.lbc), true
+	}
+	return nil, cache.ResourceEventHandlerFuncs{}, false
+}
+
+// Apply delivers one informer event: obj != nil is an add (no object under the key yet) or an update;
+// obj == nil deletes the object stored under key.  It returns how many tasks the real handler queued
+// (0 = the handler dropped the event) after running the real sync on each of them.
+func (v *VerifC08Ctl) Apply(kind, key string, obj interface{}) (int, error) {
+	s, h, ok := v.storeAndHandlers(kind)
+	if !ok {
+		return 0, fmt.Errorf("kind %q is not watched in this configuration", kind)
+	}
+	old, existed, _ := s.GetByKey(key)
+	switch {
+	case obj != nil:
+		if err := s.Add(obj); err != nil {
+			return 0, err
+		}
+		if existed {
+			h.UpdateFunc(old, obj)
+		} else {
+			h.AddFunc(obj)
+		}
+	case existed:
+		if err := s.Delete(old); err != nil {
+			return 0, err
+		}
+		h.DeleteFunc(old)
+	default:
+		return 0, nil
+	}
+	q := v.lbc.syncQueue.queue
+	n := 0
+	for q.Len() > 0 && n < 50 {
+		it, _ := q.Get()
+		v.lbc.sync(it.(task))
+		q.Done(it)
+		n++
+	}
+	return n, nil
+}
+
+// CurrentVS builds, from the controller's state NOW, what a fresh rendering of the VirtualServer
+// that holds the host would be made from (real createVirtualServerEx).  nil if no VirtualServer holds it.
+func (v *VerifC08Ctl) CurrentVS(host string) *configs.VirtualServerEx {
+	r, ok := v.lbc.configuration.hosts[host].(*VirtualServerConfiguration)
+	if !ok {
+		return nil
+	}
+	return v.lbc.createVirtualServerEx(r.VirtualServer, r.VirtualServerRoutes)
+}
+
+// CurrentIngress does the same for an Ingress host (regular or master).
+func (v *VerifC08Ctl) CurrentIngress(host string) (*configs.IngressEx, *configs.MergeableIngresses) {
+	r, ok := v.lbc.configuration.hosts[host].(*IngressConfiguration)
+	if !ok {
+		return nil, nil
+	}
+	if r.IsMaster {
+		return nil, v.lbc.createMergeableIngresses(r)
+	}
+	return v.lbc.createIngressEx(r.Ingress, r.ValidHosts, nil), nil
+}
+
+// PolicyVerdicts are the real validator / class verdicts for a Policy.
+func (v *VerifC08Ctl) PolicyVerdicts(p *conf_v1.Policy) (valid, classOK bool) {
+	return validation.ValidatePolicy(p, v.lbc.isNginxPlus, v.lbc.enableOIDC, v.lbc.appProtectEnabled) == nil, v.lbc.HasCorrectIngressClass(p)
+}
+
+// APUsable tells whether GetAppResource succeeds now.
+func (v *VerifC08Ctl) APUsable(kind, key string) bool {
+	k := appprotect.PolicyGVK.Kind
+	if kind == "aplog" {
+		k = appprotect.LogConfGVK.Kind
+	}
+	_, err := v.lbc.appProtectConfiguration.GetAppResource(k, key)
+	return err == nil
 }
